@@ -117,6 +117,54 @@ def bindBatch : List (List Col) → List (List RVal) → Nat → Except BatchErr
       | .error e => .error e
       | .ok svs => .ok (sv :: svs)
 
+/-! ### `Session::batch`: the second implementation of batch binding (`scylla/src/client/session.rs:1031-1090`,
+`scylla/src/statement/batch.rs:300-400`, `scylla/src/network/connection.rs:1177-1210, 1248-1300`)
+
+`Session::batch` calls `peek_first_token(values, batch.statements.first())`: iff THE FIRST statement is prepared, value
+list #0 is serialized against ITS bind markers through `from_closure` (type check, `u16` conversion) and the
+`SerializedValues` is cached (`BatchValuesFirstSerialized`).  Per attempt `Connection::batch_with_consistency` prepares
+the unprepared statements that have values (`prepare_batch`), builds one context per statement (the empty context for an
+unprepared statement without values) and serializes through `RawBatchValuesAdapter`: for statement #0 the cached bytes
+are APPENDED VERBATIM, unchecked (`append_serialize_row` + `rest.skip_next()`), every other list is checked against its
+own statement in `serialize_next`. -/
+
+inductive BStmt where
+  | prepared (cols : List Col)
+  /-- an unprepared statement; `cols` = the bind markers the server reports when it is prepared last-minute -/
+  | query (cols : List Col)
+  deriving Repr, Inhabited
+
+/-- The context statement `s` gets in an attempt, given its value list. -/
+def BStmt.ctx : BStmt → List RVal → List Col
+  | .prepared cols, _ => cols
+  | .query cols, vs => if vs.isEmpty then [] else cols
+
+/-- `peek_first_token(values, statements.first())`: the cached first value list, if any. -/
+def peekFirst : List BStmt → List (List RVal) → Except BatchErr (Option SV)
+  | .prepared cols :: _, vs :: _ =>
+    match fromSerializable (.seq vs) cols with
+    | .error e => .error (.stmt 0 e)
+    | .ok sv => .ok (some sv)
+  | _, _ => .ok none
+
+/-- The contexts of an attempt: statement by statement, paired with the value lists as far as they go. -/
+def attemptCtxs : List BStmt → List (List RVal) → List (List Col)
+  | [], _ => []
+  | s :: ss, [] => s.ctx [] :: attemptCtxs ss []
+  | s :: ss, vs :: rs => s.ctx vs :: attemptCtxs ss rs
+
+/-- `Session::batch` up to the frame: the cells sent per statement, or the error (then NO frame is sent). -/
+def sessionBatch (stmts : List BStmt) (rows : List (List RVal)) : Except BatchErr (List SV) :=
+  match peekFirst stmts rows with
+  | .error e => .error e
+  | .ok first =>
+    match first, attemptCtxs stmts rows, rows with
+    | some sv, _ :: cs, _ :: rs =>
+      match bindBatch cs rs 1 with
+      | .error e => .error e
+      | .ok svs => .ok (sv :: svs)
+    | _, cs, rs => bindBatch cs rs 0
+
 /-! ### `new_from_frame` -/
 
 /-- `n` successive `read_value`s; the unread rest. -/
